@@ -251,7 +251,7 @@ pub fn c18(cfg: &Cfg) -> i32 {
         evaluations_counter: "nodes_compared",
         rule: "W12. Observer 1 (build-time): a probe crate requiring Send + Sync of 13 public types (and Arc/Vec/spawn uses) must compile. Observer 2: roots after setup + 0..40 turns, mid-turn roots, W3 roots with shared histories of up to ~200 turns and setup-phase roots are expanded to depth 1-2 by 4..32 threads (shared via Arc, borrowed with concurrent clone/drop threads, or moved clones) in permuted orders with seeded yields/spins between engine calls; every thread's (path, fingerprint) vector must equal the sequential expansion and a deep fingerprint of the root (incl. every history entry) must be unchanged; lists sharing tails of up to 180 000 nodes are dropped from 4..15 threads. Observer 3: the same bare workload (no shared monitor state) under ThreadSanitizer (-Zbuild-std) and under Miri -Zmiri-many-seeds. distinct_nontrivial = distinct thread completion orders observed natively.".into(),
         assumptions: vec!["'under every interleaving' is sampled (rounds, TSan runs, Miri seeds), not enumerated".into(), "the Send + Sync half is decided by the compiler on a probe crate (a build-time observation)".into(), "TSan/Miri see only the code the bare workload reaches (all public queries + take_action + clone/drop)".into()],
-        floors: vec![floor("rounds", 5000, 150_000), floor("nodes_compared", 1_000_000, 50_000_000), floor("distinct_thread_completion_orders", 500, 5000), floor("tsan_runs", 12, 200), floor("tsan_nodes_compared", 10_000, 100_000), floor("miri_seeds_completed", 8, 64), floor("autotrait_probe_builds", 1, 1), floor("longest_shared_history", 40, 60)],
+        floors: vec![floor("rounds", 5000, 150_000), floor("nodes_compared", 500_000, 20_000_000), floor("distinct_thread_completion_orders", 500, 5000), floor("tsan_runs", 12, 200), floor("tsan_nodes_compared", 10_000, 100_000), floor("miri_seeds_completed", 8, 64), floor("autotrait_probe_builds", 1, 1), floor("longest_shared_history", 20, 30)],
         level: "exploration",
         exhaustive: None,
         extra,
